@@ -9,7 +9,11 @@ use std::collections::{BTreeMap, HashSet};
 use std::sync::atomic::{AtomicBool, AtomicU64, Ordering};
 use std::sync::Mutex;
 
-pub const VERIF_DIR: &str = "/verif";
+/// Where evidence / replays / known findings live. Always /verif for the registered checks; the seeded-change
+/// matrix (tools/seedmatrix.py) points scratch evaluations elsewhere so they never touch the committed evidence.
+pub fn verif_dir() -> String {
+    std::env::var("VERIF_EVAL_DIR").unwrap_or_else(|_| "/verif".to_string())
+}
 
 #[derive(Clone, Copy, Debug, PartialEq, Eq)]
 pub enum Tier {
@@ -108,7 +112,7 @@ pub struct Ctx {
 }
 
 fn load_known(id: &str) -> Vec<KnownFinding> {
-    let p = format!("{}/known_findings.json", VERIF_DIR);
+    let p = format!("{}/known_findings.json", verif_dir());
     let Ok(s) = std::fs::read_to_string(&p) else { return vec![] };
     let Ok(v) = serde_json::from_str::<Value>(&s) else { return vec![] };
     let mut out = vec![];
@@ -237,7 +241,7 @@ impl Ctx {
         });
         let text = serde_json::to_string_pretty(&body).unwrap();
         let digest = crate::model::crypto::fnv64(serde_json::to_string(&body["case"]).unwrap().as_bytes());
-        let dir = format!("{}/replays", VERIF_DIR);
+        let dir = format!("{}/replays", verif_dir());
         let _ = std::fs::create_dir_all(&dir);
         let path = format!("{}/{}-{}-{:016x}.json", dir, self.id, sub, digest);
         let _ = std::fs::write(&path, text);
@@ -483,7 +487,7 @@ impl Ctx {
             "wall_s": (self.start.elapsed().as_millis() as f64) / 1000.0,
             "violations": viol.len(),
         });
-        let dir = format!("{}/evidence", VERIF_DIR);
+        let dir = format!("{}/evidence", verif_dir());
         let _ = std::fs::create_dir_all(&dir);
         let path = format!("{}/{}.json", dir, self.id);
         if !self.strict {
